@@ -12,7 +12,8 @@ EXPLANATION = ("Real tcp Server/ServerTls with two accepted connections A and B,
                "solver-chosen from the property's set {ECONNRESET, EPIPE, ENETRESET, ENETUNREACH, EHOSTUNREACH, ENETDOWN, EHOSTDOWN, "
                "ETIMEDOUT, ECONNREFUSED} and realised before the OSError is built (Python maps the errno to its subclass, e.g. "
                "BrokenPipeError, at construction, which hio relies on), every value being explored through the path tree; TLS EOF (SSLEOFError / SSL_ERROR_EOF), SSLError and ECONNABORTED during handshakes and a "
-               "peer close (recv -> b'') are driver cases. After the fault the kernel reports the descriptor as not connected (getpeername "
+               "peer close (recv -> b'') are driver cases; a further form resets A while its last bytes are still readable (recv returns "
+               "them, the descriptor already reports ENOTCONN, the next recv reports ECONNRESET), with and without a wire log attached. After the fault the kernel reports the descriptor as not connected (getpeername "
                "raises ENOTCONN, as after a real reset). Oracle: service() returns normally; A is marked cutoff (aborted for a handshake "
                "in progress); bytes queued for B are delivered and B's incoming bytes received in the same and the next service call.")
 FUNCTIONS = [('hio.core.tcp.clienting', 'Client.service'), ('hio.core.tcp.clienting', 'Client.send'), ('hio.core.tcp.clienting', 'Client.receive'),
@@ -25,7 +26,7 @@ BOUNDS = {'quick': dict(calls=2, budget_s=120, audit_max=6), 'thorough': dict(ca
 OUTSIDE = ['errnos outside the property set (they are meant to be re-raised)', 'real kernel RST timing / real OpenSSL', 'more than one fault per run', 'faults on the listen socket']
 STUBS = ['FakeNet sockets with a fault-injecting send/recv policy; FakeCtx/FakeTLSSock handshake scripts; after a fault the descriptor reports ENOTCONN on getpeername']
 ASSUMPTIONS = ['an OSError raised by the kernel carries the errno as args[0] and .errno; SSLEOFError carries SSL_ERROR_EOF (8) there']
-REQUIRED_TAGS = ['fault-on-send', 'fault-on-recv', 'peer-close', 'tls-eof-data', 'tls-handshake-eof', 'tls-handshake-aborted', 'sibling-has-traffic', 'second-call-faults']
+REQUIRED_TAGS = ['reset-with-data-readable', 'wirelog-attached', 'fault-on-send', 'fault-on-recv', 'peer-close', 'tls-eof-data', 'tls-handshake-eof', 'tls-handshake-aborted', 'sibling-has-traffic', 'second-call-faults']
 SOLVER_ROLE = 'enumeration of the finite fault set, call positions and handshake scripts through the solver-maintained path tree'
 RULE = 'tags: where the fault hits (send / recv / handshake / data-phase TLS EOF / peer close) and that the sibling connection has traffic'
 ERRNOS = [errno.ECONNRESET, errno.EPIPE, errno.ENETRESET, errno.ENETUNREACH, errno.EHOSTUNREACH, errno.ENETDOWN, errno.EHOSTDOWN, errno.ETIMEDOUT, errno.ECONNREFUSED]
@@ -44,6 +45,9 @@ def partitions(tier):
                 ps.append(dict(name='%s-%s-tlseof' % (cls, where), cls=cls, where=where, fault='tlseof', calls=b['calls']))
             for hs in (('eof', 'sslerror', 'aborted', 'errno') if cls == 'ServerTls' else ('eof', 'aborted', 'errno')):   # a generic SSLError (e.g. certificate verification) on the client is outside the property's fault set
                 ps.append(dict(name='%s-handshake-%s' % (cls, hs), cls=cls, where='handshake', fault=hs, calls=b['calls']))
+    for cls in ('Server', 'ServerTls'):
+        for where in ('send', 'recv'):
+            ps.append(dict(name='%s-%s-reset-with-data' % (cls, where), cls=cls, where=where, fault='resetdata', calls=b['calls']))
     return ps
 
 
@@ -162,6 +166,75 @@ def harness_server(sym, part):
     return None
 
 
+class NullWL:
+    """wire log collaborator: only the calls matter (who= is evaluated by the code under test)"""
+    def __init__(self):
+        self.rx, self.tx = b'', b''
+
+    def writeRx(self, data, who=b''):
+        self.rx += bytes(data)
+
+    def writeTx(self, data, who=b''):
+        self.tx += bytes(data)
+
+
+def harness_server_reset_with_data(sym, part):
+    """the peer of A sends its last bytes and resets: the kernel still hands the queued bytes to recv() (and may have accepted a
+    send()) but the descriptor is no longer connected (getpeername -> ENOTCONN); the following recv reports ECONNRESET. A wire log
+    is attached (solver-chosen), because logging code asks the socket for its peer"""
+    net = fakenet.FakeNet()
+    tls = part['cls'] == 'ServerTls'
+    with fakenet.Patch(net, serving):
+        wl = NullWL() if sym.cbool('wirelog') else None
+        if wl is not None:
+            sym.cover('wirelog-attached')
+        if tls:
+            srv = serving.ServerTls(ha=('127.0.0.1', 6101), context=fakenet.FakeCtx(script=['ok']), wl=wl)
+        else:
+            srv = serving.Server(ha=('127.0.0.1', 6101), wl=wl)
+        assert srv.reopen()
+        a = net.incoming(srv.ss, ('10.0.0.1', 4001))
+        b = net.incoming(srv.ss, ('10.0.0.2', 4002))
+        where = part['where']
+        try:
+            srv.service()
+            if tls:
+                srv.service()
+            ixa = srv.ixes.get(('10.0.0.1', 4001))
+            ixb = srv.ixes.get(('10.0.0.2', 4002))
+            if ixa is None or ixb is None:
+                return Failure('harness:not-accepted', 'connections not accepted')
+            sk = ixa.cs
+            k = sym.cint('data_chunks', 1, 2)
+            for j in range(k):
+                sk.inq.append(b'last%d' % j)
+            sk.inq.append(('err', ConnectionResetError(errno.ECONNRESET, 'reset')))
+            sk.dead = True                      # from now on: not connected
+            sym.cover('reset-with-data-readable')
+            if where == 'send':                 # the reset lands just after the kernel accepted a send
+                ixa.tx(b'to-A')
+                sk.on_send = lambda s_, data: len(data)
+                sym.cover('fault-on-send')
+            else:
+                sym.cover('fault-on-recv')
+            ixb.tx(b'to-B')
+            ixb.cs.inq.append(b'from-B')
+            sym.cover('sibling-has-traffic')
+            for _ in range(k + 2):
+                srv.service()
+        except Exception as ex:
+            from vf.engine.symx_guard import guard
+            guard(ex)
+            return Failure('%s:%s:reset-with-data%s:escapes-service' % (part['cls'], where, ':wirelog' if wl is not None else ''),
+                           lambda ex=ex: '%s raised out of %s.service(): %s' % (type(ex).__name__, part['cls'], exc_text(sym, ex)))
+        tag = '%s:%s:reset-with-data%s' % (part['cls'], where, ':wirelog' if wl is not None else '')
+        if not ixa.cutoff:
+            return Failure(tag + ':not-cutoff', 'reset connection not marked cutoff (still in .ixes: %r)' % (('10.0.0.1', 4001) in srv.ixes,))
+        if bytes(ixb.cs.wire) != b'to-B' or bytes(ixb.rxbs) != b'from-B':
+            return Failure(tag + ':sibling-starved', lambda: 'sibling B: peer got %r, server received %r' % (bytes(ixb.cs.wire), bytes(ixb.rxbs)))
+    return None
+
+
 def harness_client(sym, part):
     net = fakenet.FakeNet()
     tls = part['cls'] == 'ClientTls'
@@ -212,6 +285,8 @@ def harness_client(sym, part):
 
 
 def harness(sym, part):
+    if part['fault'] == 'resetdata':
+        return harness_server_reset_with_data(sym, part)
     if part['cls'].startswith('Server'):
         return harness_server(sym, part)
     return harness_client(sym, part)
